@@ -38,10 +38,12 @@ THEOREMS = [
     "MCHap.C05.gamma_ratio_eq_rising",
     "MCHap.C05.gamma_factorial",
 ]
-RULE = ("cases: every unordered genotype of completely enumerated spaces (ploidy 1..6 x 1..5 alleles in quick, more in thorough) "
-        "x inbreeding {0, 0.01, 0.25, 0.5, 0.9} x frequencies {flat(None), flat array, skewed, with zero entries}; every allele position "
-        "for the conditional prior; random larger (ploidy, alleles) spaces. Non-trivial: genotype with a repeated allele and >= 2 distinct "
-        "alleles, under F > 0 or non-flat frequencies. Distinct by canonical request line.")
+RULE = ("cases: every unordered genotype of completely enumerated spaces (ploidy 1..6 x 1..5 alleles in quick, more in thorough; (40,2), "
+        "(24,3); (2,300): sum over the whole space, values on a sample) x inbreeding {0, 0.01, 0.25, 0.5, 0.9, log-uniform in (1e-9,1e-2), "
+        "1-10^-k} x frequencies {flat(None), flat array, skewed, with zero entries, tiny (1e-3..1e-12)}; genotypes sorted or shuffled, "
+        "int64/int32/int16/int8; every allele position for the conditional prior; assemble prior over 2^1..2^700 haplotypes; pools of ploidy "
+        "100..200 through get_haplotype_dosage with the buffer dtype observed at the sampler's call sites. Non-trivial: genotype with a "
+        "repeated allele and >= 2 distinct alleles, under F > 0 or non-flat frequencies. Distinct by canonical request line.")
 
 INBREEDING = [0.0, 0.01, 0.25, 0.5, 0.9]
 
@@ -199,6 +201,10 @@ def run(tier, replay=None):
 
     chk = C.Check(PROP, tier, MODULE, THEOREMS, RULE, assumptions=[
         "lgamma / log / exp in float64 are compared at rel 1e-9 (sums at 1e-9 absolute), not proved",
+        "for F below ~1e-6 the code's lgamma(A) - lgamma(ploidy + A), A = (1-F)/F, cancels terms of magnitude A log A: the tolerance is "
+        "widened by 8 units in the last place of those terms (2.5e-6 relative at F = 1e-9); such cases are counted",
+        "F = 0 with explicit frequencies: the float64 product of a genotype's allele frequencies underflows below 1e-300 "
+        "(ploidy 40 with frequencies 1e-9): counted, not compared in log space",
         "frequency vectors are float64 and sum to one only up to rounding; the theorem is for exact sums",
     ])
     chk.prove()
